@@ -17,9 +17,13 @@ def obligations_for(prop, tier, only):
     return names
 
 
-def run(prop, tier, obls, logdir, seed):
+def run(prop, tier, obls, logdir, seed, only=None):
     out = os.path.join(logdir, f"mirsmt.{prop}.json")
+    if os.path.exists(out):
+        os.remove(out)
     cmd = ["python3-vt", os.path.join(VERIF, "mirsmt", "run.py"), "--prop", prop, "--tier", tier, "--out", out, "--logdir", logdir, "--seed", str(seed)]
+    if only:
+        cmd += ["--only", only]
     p = subprocess.run(cmd, stdout=subprocess.PIPE, stderr=subprocess.STDOUT, text=True)
     open(os.path.join(logdir, f"mirsmt.{prop}.log"), "w").write(p.stdout)
     if not os.path.exists(out) or p.returncode not in (0,):
@@ -28,7 +32,9 @@ def run(prop, tier, obls, logdir, seed):
 
 
 def replay(prop, rp, path):
-    cmd = ["python3-vt", os.path.join(VERIF, "mirsmt", "run.py"), "--replay", path]
+    logdir = os.path.join(VERIF, ".build", "logs", prop)
+    os.makedirs(logdir, exist_ok=True)
+    cmd = ["python3-vt", os.path.join(VERIF, "mirsmt", "run.py"), "--replay", path, "--logdir", logdir]
     p = subprocess.run(cmd, stdout=subprocess.PIPE, stderr=subprocess.STDOUT, text=True)
     print(p.stdout)
     if p.returncode == 1:
